@@ -100,3 +100,49 @@ Fixpoint f021_scan (fresh : bool) (h : list uop) : bool :=
       end
   end.
 Definition F021_class (h : list uop) : bool := f021_scan false h.
+
+(* ------------------------------------------------------------------ runs cut by the memory budget (1 worker)
+   When the memory budget closes segments, the stamps drawn by consider_merge_options interleave with the
+   producer's, so the returned opstamps depend on the timing.  The implementation's run is then compared with
+   the model under a schedule INFERRED from the observation: `cuts` = sizes (documents) of the segments created by
+   each committed transaction, in order; before every call the worker takes batches and cuts the next
+   segment for as long as the model's next stamp is behind the opstamp the implementation returned.
+   (The theorems hold for every schedule; this shows that the observed run is the model's run under one.) *)
+Fixpoint take_until (fuel n : nat) (st : wstate) (acc : list event) : wstate * list event :=
+  match fuel with
+  | O => (st, acc)
+  | S f =>
+      match nth_error (workers st) 0, chan st with
+      | Some w, _ :: _ => if Nat.ltb (length (w_open w)) n then take_until f n (do_take st 0) (acc ++ [ETake 0%nat]) else (st, acc)
+      | _, _ => (st, acc)
+      end
+  end.
+Definition cut_with (n : nat) (st : wstate) : wstate * list event :=
+  let '(st1, ev) := take_until n n st [] in (do_cut st1 0, ev ++ [ECut 0%nat]).
+Fixpoint cuts_until (cuts : list nat) (stop : wstate -> bool) (st : wstate) (acc : list event) : wstate * list event * list nat :=
+  match cuts with
+  | [] => (st, acc, [])
+  | n :: r => if stop st then (st, acc, cuts) else let '(st1, ev) := cut_with n st in cuts_until r stop st1 (acc ++ ev)
+  end.
+Fixpoint infer_sched (f1 : bool) (st : wstate) (h : list uop) (rets : list N) (cur : list nat) (rest : list (list nat)) : sched :=
+  match h, rets with
+  | u :: h', r :: rets' =>
+      let stop : wstate -> bool :=
+        match u with
+        | Add _ | Del _ => fun s => N.leb r (stamper_ s)
+        | Batch ops => fun s => N.leb (r - N.of_nat (length ops)) (stamper_ s)
+        | Commit _ => fun s => N.leb r (snd (prepare_commit s []))
+        | _ => fun _ => true
+        end in
+      let '(st1, ev, cur') := cuts_until cur stop st [] in
+      let st2 := fst (wop f1 st1 u []) in
+      match u with
+      | Commit _ => mkS ev [] :: infer_sched f1 st2 h' rets' (hd [] rest) (tl rest)
+      | _ => mkS ev [] :: infer_sched f1 st2 h' rets' cur' rest
+      end
+  | _, _ => []
+  end.
+Definition ret_of (o : obs_t) : N := let '(r, _, _, _) := o in r.
+Definition tie_trace_cuts (h : list uop) (impl : list obs_t) (cuts : list (list nat)) : bool :=
+  let st0 := new_writer 1 init_meta in
+  trace_eqb h (run_trace F1_FIXED st0 h (infer_sched F1_FIXED st0 h (map ret_of impl) (hd [] cuts) (tl cuts))) impl.
